@@ -124,6 +124,8 @@ pub struct BBook {
     /// a supporting link to an external workbook (BrtSupBookSrc) recorded before BrtSupSelf: the XTI entries of this workbook's
     /// own sheets then carry supporting-link index 1
     pub external_link_first: bool,
+    /// write the Relationship elements of workbook.bin.rels as start tag + end tag instead of empty-element tags
+    pub rels_end_tags: bool,
 }
 
 pub fn row_hdr(row: u32) -> Vec<u8> {
@@ -288,6 +290,7 @@ pub fn write(b: &BBook, method: Method) -> Vec<u8> {
         z.add("xl/externalLinks/_rels/externalLink1.bin.rels", format!("<?xml version=\"1.0\" encoding=\"UTF-8\" standalone=\"yes\"?>\n<Relationships xmlns=\"{NS_PKG_REL}\"><Relationship Id=\"rId1\" Type=\"http://schemas.openxmlformats.org/officeDocument/2006/relationships/externalLinkPath\" Target=\"other.xlsb\" TargetMode=\"External\"/></Relationships>").as_bytes(), method);
     }
     rels.push_str("</Relationships>");
+    if b.rels_end_tags { rels = rels.replace("\"/>", "\"></Relationship>"); }
     z.add("xl/_rels/workbook.bin.rels", rels.as_bytes(), method);
     z.add("xl/styles.bin", &styles_bin(b), method);
     if !b.sst.is_empty() { z.add("xl/sharedStrings.bin", &sst_bin(b), method); }
